@@ -169,7 +169,7 @@ func collectSites(f *File, from int) []tokSite {
 	}
 	var cmdSites func(c *Cmd)
 	cmdSites = func(c *Cmd) {
-		if c == nil || c.Name == "goto" {
+		if c == nil {
 			return
 		}
 		for _, a := range c.Args {
@@ -322,6 +322,22 @@ func constify(t *rapid.T, f *File, auto AutoCfg) []cdef {
 	// a constant is never the last statement directly... (it may be; its value then simply extends to the end of the file)
 	// uses at documented sites (before and after the definition)
 	sites := collectSites(f, 0)
+	if len(sites) > 0 && rapid.IntRange(0, 4).Draw(t, "family") == 0 {
+		// a family: two constants that both extend the same longer constant, used after both are defined
+		// (each keeps its own value)
+		fam := []*Top{
+			{K: "const", Const: &Const{Name: "FAM_BASE", Val: []string{"VAR_BASE", "+", "2", "*", "3"}}},
+			{K: "const", Const: &Const{Name: "FAM_A", Val: []string{"FAM_BASE", "+", "1"}}},
+			{K: "const", Const: &Const{Name: "FAM_B", Val: []string{"FAM_BASE", "+", "2"}}},
+		}
+		f.Tops = append(fam, f.Tops...)
+		for i, n := 0, rapid.IntRange(1, 3).Draw(t, "famuses"); i < n; i++ {
+			s := sites[rapid.IntRange(0, len(sites)-1).Draw(t, "famsite")]
+			if s.item == nil {
+				(*s.toks)[s.idx] = rapid.SampledFrom([]string{"FAM_A", "FAM_B", "FAM_BASE"}).Draw(t, "famname")
+			}
+		}
+	}
 	if len(sites) > 0 {
 		nuse := rapid.IntRange(0, min(12, len(sites))).Draw(t, "nuses")
 		for i := 0; i < nuse; i++ {
